@@ -813,7 +813,7 @@ pub fn spell_rust_scalar(n: &crate::model::Node, t: &mut Tape) -> String {
             }
             if let Some((h, mi, se, ns)) = d.time {
                 if d.date.is_some() {
-                    s.push(*t.pick(&['T', ' ']));
+                    s.push(*t.pick(&['T', ' ', 't']));
                 }
                 s.push_str(&format!("{h:02}:{mi:02}:{se:02}"));
                 if ns != 0 {
